@@ -1,139 +1,65 @@
-import MlModel.Lemmas.QueueLiveProgs
+import MlModel.Lemmas.QueueVariantDefs
+import MlModel.Lemmas.QueueLiveJ
 /-!
-# Liveness of the IteratorQueue LTS — what a fault-free run computes, one step at a time
-
-Fault-free: no `Item.fail` in any source, no stopper, no timeout.  Then no exception is ever
-recorded (`clean`), every producer puts *all* its source values and stops with its own return
-value, and a consumer's end-of-stream exception is `StopIteration(*returned)`.
+# The termination measure decreases — the stepping thread's part, one step at a time
 -/
 namespace MlModel.Queue
 set_option linter.unusedSimpArgs false
 
-def noFail (l : List Item) : Bool := l.all (fun i => i != .fail)
+/-- what a dequeue that empties the queue may add to the other consumers' parts -/
+def flT (N : Nat) (s : Shared) (t : Thread) : Nat :=
+  match t.pc with
+  | .nGet _ => if s.q.length = 1 then wFlip * N else 0
+  | _ => 0
 
-def Prog.noFail : Prog → Bool
-  | .producer src _ => Queue.noFail src
-  | _ => true
+def VStep (s : Shared) (t : Thread) (tid : Tid) (alt : Bool) : Prop :=
+  ∀ lbl s' t', stepThread s t tid alt = some (lbl, s', t') → ∀ (N : Nat), 1 ≤ N →
+    TOK t → (t.prog.kind = .batch → 0 < t.batchMax) →
+    s.deqWait.length ≤ N → s.enqWait.length ≤ N →
+    potG N s' + flT N s t + potT N (xEmpty s') t' < potG N s + potT N (xEmpty s') t
 
-/-- the return value of a producer's source iterator -/
-def progRet : Prog → List Nat
-  | .producer _ r => [r]
-  | _ => []
+/-- a finer partition of the program points than `Pc.group` (the arithmetic goals are bigger) -/
+def Pc.sub : Pc → Nat
+  | .start | .done => 0
+  | .nAcq _ => 1 | .nGet _ => 2 | .nEmp _ => 3 | .nNaOk _ | .nNaErr _ => 4 | .nRelOk _ => 5 | .nRelErr _ => 6
+  | .gAcq | .gR0 | .gR1 | .gR2 | .gR3 | .gR4 | .gRet | .gWait | .gWake | .gRaise => 7
+  | .bAcq | .bR0 | .bR1 | .bR2 | .bR3 | .bR4 => 8
+  | .bEmp | .bWait | .bWake => 9
+  | .bRaise | .bExit | .bE1 | .bE2 | .bE3 => 10
+  | .sAcq | .sRel | .eNext => 11
+  | .pAcq | .pPut => 12
+  | .pStAcq | .pStRel | .pR0 | .pR1 | .pR2 | .pR3 | .pR4 | .pRet => 13
+  | .pWait | .pWake | .pRaiseT | .pExit => 14
+  | .tAcq | .tR0 | .tR1 | .tR2 | .tR3 | .tR4 | .tS0 | .tS1 | .tS2 | .tS3 | .tS4 | .tRel => 15
+  | .mAcq | .mRel | .mE0 | .mE1 | .mE2 | .mD0 | .mD1 | .mD2 => 16
 
-/-- `final` as a function of the two fields it reads (kept folded in the step proofs) -/
-def finalOf (exc : Option ErrKind) (returned : List Nat) : Raise :=
-  match exc with
-  | some e => .err e
-  | none => .stop returned
+theorem Pc.sub_lt (pc : Pc) : pc.sub < 17 := by cases pc <;> simp [Pc.sub]
 
-theorem final_eq (s : Shared) : s.final = finalOf s.exc s.returned := rfl
-
-/-- thread-local facts of a fault-free run -/
-structure CT (t : Thread) : Prop where
-  src : noFail t.src = true
-  prog : t.prog.noFail = true
-  kind : t.prog.kind ≠ .stopper
-  pc : t.pc ≠ .pRaiseT
-  stop : stopped t = true → t.rets = progRet t.prog
-  stop2 : stopped t = true → t.src = []
-  res : (t.pc = .done ∨ t.pc = .bRaise) → t.result = []
-
-def CleanStep (s : Shared) (t : Thread) (tid : Tid) (alt : Bool) : Prop :=
-  ∀ lbl s' t', stepThread s t tid alt = some (lbl, s', t') → TOK t →
-    s.exc = none → s.stopRequested = false → s.timeout = false →
-    ((match t.pc with | .nRelErr _ => true | _ => false) = true → t.x.isErr = true → s.exc.isSome = true) →
-    CT t → s'.exc = none ∧ s'.stopRequested = false ∧ CT t'
+theorem wB_eq (N : Nat) : wB N = 300 + 60 * N := rfl
+theorem wA_eq (N : Nat) : wA N = wB N + 100 := rfl
 
 
-theorem dbg_a {s t tid alt} {c : Caller} (hpc : t.pc = .nNaOk c) : CleanStep s t tid alt := by
-  intro lbl s' t' h htok he hsr hto hx3 hct
-  have hk := htok.kind; have hr := htok.res
-  obtain ⟨c1, c2, c3, c4, c5, c7, c6⟩ := hct
+theorem dbg_start {s t tid alt} {c : Caller} (hpc : t.pc = .start) : VStep s t tid alt := by
+  intro lbl s' t' h N hN htok hmax hdw hew
+  have hk := htok.kind
   clear htok
-  clear hto
+  have hB := wB_eq N; have hA := wA_eq N
+  generalize hx' : xEmpty s' = x'
   unfold stepThread at h
-  simp only [hpc] at h hk hx3 c4 c6 <;>
+  cases hpc : t.pc <;> 
+    (try (cases ‹Caller›)) <;>
+    simp only [hpc] at h hk <;>
     (try simp only [acquire, release, notify, waitPark, waitWake, goto, enqLoop, putLoop, batchLoop,
       afterRaise, afterValue] at h) <;>
     (repeat' split at h) <;>
     (try simp only [Option.some.injEq, Prod.mk.injEq, reduceCtorEq] at h) <;>
     (try (obtain ⟨-, rfl, rfl⟩ := h)) <;>
-    (refine ⟨?_, ?_, ⟨?_, ?_, ?_, ?_, ?_, ?_, ?_⟩⟩) <;>
-    (try (have hen : t.pc = Pc.eNext := hpc; clear hen; cases hprog : t.prog)) <;>
-    simp_all [Shared.setOwner, Shared.owner, pcKind, Prog.kind, noFail, Prog.noFail, progRet, stopped] <;>
-    (try assumption)
-
-theorem dbg_b {s t tid alt} {c : Caller} (hpc : t.pc = .nNaOk c) : CleanStep s t tid alt := by
-  intro lbl s' t' h htok he hsr hto hx3 hct
-  have hk := htok.kind; have hr := htok.res
-  obtain ⟨c1, c2, c3, c4, c5, c7, c6⟩ := hct
-  clear htok
-  clear he
-  unfold stepThread at h
-  simp only [hpc] at h hk hx3 c4 c6 <;>
-    (try simp only [acquire, release, notify, waitPark, waitWake, goto, enqLoop, putLoop, batchLoop,
-      afterRaise, afterValue] at h) <;>
-    (repeat' split at h) <;>
-    (try simp only [Option.some.injEq, Prod.mk.injEq, reduceCtorEq] at h) <;>
-    (try (obtain ⟨-, rfl, rfl⟩ := h)) <;>
-    (refine ⟨?_, ?_, ⟨?_, ?_, ?_, ?_, ?_, ?_, ?_⟩⟩) <;>
-    (try (have hen : t.pc = Pc.eNext := hpc; clear hen; cases hprog : t.prog)) <;>
-    simp_all [Shared.setOwner, Shared.owner, pcKind, Prog.kind, noFail, Prog.noFail, progRet, stopped] <;>
-    (try assumption)
-
-theorem dbg_c {s t tid alt} {c : Caller} (hpc : t.pc = .nNaOk c) : CleanStep s t tid alt := by
-  intro lbl s' t' h htok he hsr hto hx3 hct
-  have hk := htok.kind; have hr := htok.res
-  obtain ⟨c1, c2, c3, c4, c5, c7, c6⟩ := hct
-  clear htok
-  clear hsr
-  unfold stepThread at h
-  simp only [hpc] at h hk hx3 c4 c6 <;>
-    (try simp only [acquire, release, notify, waitPark, waitWake, goto, enqLoop, putLoop, batchLoop,
-      afterRaise, afterValue] at h) <;>
-    (repeat' split at h) <;>
-    (try simp only [Option.some.injEq, Prod.mk.injEq, reduceCtorEq] at h) <;>
-    (try (obtain ⟨-, rfl, rfl⟩ := h)) <;>
-    (refine ⟨?_, ?_, ⟨?_, ?_, ?_, ?_, ?_, ?_, ?_⟩⟩) <;>
-    (try (have hen : t.pc = Pc.eNext := hpc; clear hen; cases hprog : t.prog)) <;>
-    simp_all [Shared.setOwner, Shared.owner, pcKind, Prog.kind, noFail, Prog.noFail, progRet, stopped] <;>
-    (try assumption)
-
-theorem dbg_d {s t tid alt} {c : Caller} (hpc : t.pc = .nNaOk c) : CleanStep s t tid alt := by
-  intro lbl s' t' h htok he hsr hto hx3 hct
-  have hk := htok.kind; have hr := htok.res
-  obtain ⟨c1, c2, c3, c4, c5, c7, c6⟩ := hct
-  clear htok
-  clear hto he hsr
-  unfold stepThread at h
-  simp only [hpc] at h hk hx3 c4 c6 <;>
-    (try simp only [acquire, release, notify, waitPark, waitWake, goto, enqLoop, putLoop, batchLoop,
-      afterRaise, afterValue] at h) <;>
-    (repeat' split at h) <;>
-    (try simp only [Option.some.injEq, Prod.mk.injEq, reduceCtorEq] at h) <;>
-    (try (obtain ⟨-, rfl, rfl⟩ := h)) <;>
-    (refine ⟨?_, ?_, ⟨?_, ?_, ?_, ?_, ?_, ?_, ?_⟩⟩) <;>
-    (try (have hen : t.pc = Pc.eNext := hpc; clear hen; cases hprog : t.prog)) <;>
-    simp_all [Shared.setOwner, Shared.owner, pcKind, Prog.kind, noFail, Prog.noFail, progRet, stopped] <;>
-    (try assumption)
-
-theorem dbg_e {s t tid alt} {c : Caller} (hpc : t.pc = .nNaOk c) : CleanStep s t tid alt := by
-  intro lbl s' t' h htok he hsr hto hx3 hct
-  have hk := htok.kind; have hr := htok.res
-  obtain ⟨c1, c2, c3, c4, c5, c7, c6⟩ := hct
-  clear htok
-  clear hx3
-  unfold stepThread at h
-  simp only [hpc] at h hk hx3 c4 c6 <;>
-    (try simp only [acquire, release, notify, waitPark, waitWake, goto, enqLoop, putLoop, batchLoop,
-      afterRaise, afterValue] at h) <;>
-    (repeat' split at h) <;>
-    (try simp only [Option.some.injEq, Prod.mk.injEq, reduceCtorEq] at h) <;>
-    (try (obtain ⟨-, rfl, rfl⟩ := h)) <;>
-    (refine ⟨?_, ?_, ⟨?_, ?_, ?_, ?_, ?_, ?_, ?_⟩⟩) <;>
-    (try (have hen : t.pc = Pc.eNext := hpc; clear hen; cases hprog : t.prog)) <;>
-    simp_all [Shared.setOwner, Shared.owner, pcKind, Prog.kind, noFail, Prog.noFail, progRet, stopped] <;>
-    (try assumption)
-
+    cases x' <;>
+    simp_all [potT, basePot, potG, srcLen, flT, xEmpty, Shared.setOwner, Shared.owner, enqueueDone_eq,
+      wE, wD, wR, wFlip, wX, tA, pcKind, Prog.kind, Nat.mul_add, Nat.add_mul] <;>
+    (repeat' split) <;> (try simp_all) <;>
+    (try (have hposd := List.length_pos_of_mem ‹tid ∈ s.deqNotified›)) <;>
+    (try (have hpose := List.length_pos_of_mem ‹tid ∈ s.enqNotified›)) <;>
+    (try omega)
 
 end MlModel.Queue
